@@ -34,18 +34,18 @@ Proof.
     exists (b :: pre), post. repeat split; cbn; auto. constructor; [lia|assumption].
 Qed.
 
-Lemma line_of_app_hi pre post :
-  Forall (fun x => 128 <= x) pre -> line_of (pre ++ post) = pre ++ line_of post.
+Lemma line_text_app_hi pre post :
+  Forall (fun x => 128 <= x) pre -> line_text (pre ++ post) = pre ++ line_text post.
 Proof.
-  induction 1 as [|x pre Hx _ IH]; [reflexivity|]. cbn [app line_of].
-  unfold LF. destruct (x =? 10) eqn:E; [lia|]. rewrite IH. reflexivity.
+  induction 1 as [|x pre Hx _ IH]; [reflexivity|]. cbn [app line_text].
+  unfold LF, CR. destruct (x =? 10) eqn:E; [lia|]. destruct (x =? 13) eqn:E2; [lia|]. cbn [andb]. rewrite IH. reflexivity.
 Qed.
 
-Lemma decode_line_of b0 r :
-  cps_ok r (cp_len b0 - 1) = true -> decode (b0 :: line_of r) = decode (b0 :: r).
+Lemma decode_line_text b0 r :
+  cps_ok r (cp_len b0 - 1) = true -> decode (b0 :: line_text r) = decode (b0 :: r).
 Proof.
   intro H. destruct (cps_ok_split _ _ H) as (pre & post & -> & Hl & Hf & _).
-  rewrite (line_of_app_hi _ _ Hf). apply decode_ext. exact Hl.
+  rewrite (line_text_app_hi _ _ Hf). apply decode_ext. exact Hl.
 Qed.
 
 Lemma cp_len_pos b0 : (1 <= cp_len b0)%nat.
@@ -53,49 +53,52 @@ Proof. unfold cp_len. destruct (b0 <? 128), (b0 <? 224), (b0 <? 240); lia. Qed.
 
 (* ---------- column walk ---------- *)
 Lemma col_agree : forall t skip c count k,
-  cps_ok t skip = true -> crlf_clamp t skip c = false ->
+  cps_ok t skip = true ->
   ref_col t skip c = Some k ->
-  u16_to_byte (line_of t) skip count (count + c) + N.of_nat skip = k.
+  u16_to_byte (line_text t) skip count (count + c) + N.of_nat skip = k.
 Proof.
-  induction t as [|b0 r IH]; intros skip c count k Hok Hcl Href.
+  induction t as [|b0 r IH]; intros skip c count k Hok Href.
   - cbn [cps_ok] in Hok. cbn [ref_col] in Href. inversion Href; subst.
     destruct skip; [reflexivity|discriminate].
   - destruct skip as [|k'].
     + cbn [cps_ok] in Hok. apply andb_true_iff in Hok as [Hhead Hrest].
-      cbn [ref_col] in Href. cbn [crlf_clamp] in Hcl.
+      cbn [ref_col] in Href.
       destruct (c =? 0) eqn:Ec.
       * inversion Href; subst. assert (c = 0) by lia. subst c.
-        cbn [line_of]. destruct (b0 =? LF); cbn [u16_to_byte]; [reflexivity|].
+        cbn [line_text]. destruct (b0 =? LF); cbn [u16_to_byte]; [reflexivity|].
+        destruct ((b0 =? CR) && match r with c' :: _ => c' =? LF | [] => false end); cbn [u16_to_byte]; [reflexivity|].
         assert (E : (count + 0 <=? count) = true) by lia. rewrite E. reflexivity.
       * destruct (b0 =? LF) eqn:Elf.
         { (* at end of an LF line: clamp *)
           assert (Hat : at_eol (b0 :: r) = true) by (cbn [at_eol]; rewrite Elf; reflexivity).
-          rewrite Hat in Href. inversion Href; subst. cbn [line_of]. rewrite Elf. reflexivity. }
-        destruct ((b0 =? CR) && match r with c' :: _ => c' =? LF | [] => false end) eqn:Ecr;
-          [discriminate Hcl|].
+          rewrite Hat in Href. inversion Href; subst. cbn [line_text]. rewrite Elf. reflexivity. }
+        destruct ((b0 =? CR) && match r with c' :: _ => c' =? LF | [] => false end) eqn:Ecr.
+        { (* at the CR of a CRLF line end: clamp before it, as the line's text ends there *)
+          assert (Hat : at_eol (b0 :: r) = true) by (cbn [at_eol]; rewrite Elf, Ecr; reflexivity).
+          rewrite Hat in Href. inversion Href; subst. cbn [line_text]. rewrite Elf, Ecr. reflexivity. }
         assert (Hat : at_eol (b0 :: r) = false) by (cbn [at_eol]; rewrite Elf, Ecr; reflexivity).
         rewrite Hat in Href.
         destruct (c <? cp_units (cp_len b0)) eqn:Ew; [discriminate Href|].
         destruct (ref_col r (cp_len b0 - 1) (c - cp_units (cp_len b0))) as [k0|] eqn:Hr0;
           [|discriminate Href].
         unfold option_map in Href. inversion Href; subst k.
-        cbn [line_of]. rewrite Elf. cbn [u16_to_byte].
+        cbn [line_text]. rewrite Elf, Ecr. cbn [u16_to_byte].
         assert (E : (count + c <=? count) = false) by lia. rewrite E.
-        rewrite (decode_line_of b0 r Hrest).
+        rewrite (decode_line_text b0 r Hrest).
         unfold cp_head_ok in Hhead.
         destruct (decode (b0 :: r)) as [rn n] eqn:Hd.
         apply andb_true_iff in Hhead as [Hh Hu]. apply andb_true_iff in Hh as [Hn Hl].
         apply Nat.eqb_eq in Hn. subst n.
         pose proof (cp_len_pos b0) as Hpos.
-        specialize (IH (cp_len b0 - 1)%nat (c - cp_units (cp_len b0)) (count + u16len rn) k0 Hrest Hcl Hr0).
+        specialize (IH (cp_len b0 - 1)%nat (c - cp_units (cp_len b0)) (count + u16len rn) k0 Hrest Hr0).
         replace (count + u16len rn + (c - cp_units (cp_len b0))) with (count + c) in IH by lia.
         lia.
     + cbn [cps_ok] in Hok. apply andb_true_iff in Hok as [Hb Hrest].
-      cbn [ref_col] in Href. cbn [crlf_clamp] in Hcl.
+      cbn [ref_col] in Href.
       destruct (ref_col r k' c) as [k0|] eqn:Hr0; [|discriminate Href].
       unfold option_map in Href. inversion Href; subst k.
-      cbn [line_of]. unfold LF. destruct (b0 =? 10) eqn:E; [lia|].
-      cbn [u16_to_byte]. specialize (IH k' c count k0 Hrest Hcl Hr0). lia.
+      cbn [line_text]. unfold LF, CR. destruct (b0 =? 10) eqn:E; [lia|]. destruct (b0 =? 13) eqn:E13; [lia|]. cbn [andb].
+      cbn [u16_to_byte]. specialize (IH k' c count k0 Hrest Hr0). lia.
 Qed.
 
 Lemma ref_col_bound : forall t skip c k, ref_col t skip c = Some k -> k <= blen t.
@@ -124,27 +127,25 @@ Lemma skip_lines_zero t : skip_lines t 0 = Some t.
 Proof. destruct t; reflexivity. Qed.
 
 Lemma off_agree : forall t skip l c k,
-  cps_ok t skip = true -> (l = 0 -> skip = 0%nat) -> past_eol_crlf t l c = false ->
+  cps_ok t skip = true -> (l = 0 -> skip = 0%nat) ->
   ref_off t l c = Some k -> lsp_to_byte t l c = k.
 Proof.
-  induction t as [|b r IH]; intros skip l c k Hok Hsk Hp Href.
+  induction t as [|b r IH]; intros skip l c k Hok Hsk Href.
   - cbn [ref_off] in Href. unfold lsp_to_byte. cbn [skip_lines].
     destruct (l =? 0) eqn:El.
     + cbn [ref_col] in Href. inversion Href; subst. reflexivity.
     + inversion Href; subst. reflexivity.
   - destruct (l =? 0) eqn:El.
     + assert (l = 0) by lia. subst l. rewrite (Hsk eq_refl) in Hok.
-      unfold past_eol_crlf in Hp. rewrite skip_lines_zero in Hp.
       cbn [ref_off] in Href. cbn [N.eqb] in Href.
       unfold lsp_to_byte. rewrite skip_lines_zero.
-      pose proof (col_agree (b :: r) 0 c 0 k Hok Hp Href) as H.
+      pose proof (col_agree (b :: r) 0 c 0 k Hok Href) as H.
       cbn [N.add] in H. rewrite N.add_0_l in H. lia.
     + cbn [ref_off] in Href. rewrite El in Href.
       set (l' := if b =? LF then l - 1 else l) in *.
       destruct (ref_off r l' c) as [k0|] eqn:Hr; [|discriminate Href].
       unfold option_map in Href. inversion Href; subst k.
       assert (Hsl : skip_lines (b :: r) l = skip_lines r l') by (cbn [skip_lines]; rewrite El; reflexivity).
-      assert (Hp' : past_eol_crlf r l' c = false) by (unfold past_eol_crlf in *; rewrite Hsl in Hp; exact Hp).
       assert (Hok' : exists skip', cps_ok r skip' = true /\ (l' = 0 -> skip' = 0%nat)).
       { destruct skip as [|k'].
         - cbn [cps_ok] in Hok. apply andb_true_iff in Hok as [_ Hr'].
@@ -154,7 +155,7 @@ Proof.
           exists k'. split; [exact Hr'|]. intro Hl0. subst l'.
           destruct (b =? LF) eqn:Eb; [|lia]. unfold LF in Eb. lia. }
       destruct Hok' as (skip' & Hok' & Hsk').
-      specialize (IH skip' l' c k0 Hok' Hsk' Hp' Hr).
+      specialize (IH skip' l' c k0 Hok' Hsk' Hr).
       unfold lsp_to_byte in *. rewrite Hsl.
       destruct (skip_lines r l') as [rest|] eqn:Es.
       * apply skip_lines_len in Es. unfold blen in *. cbn [length]. lia.
@@ -173,13 +174,12 @@ Qed.
 (* ---------- one change ---------- *)
 Lemma apply_agree t r x a z :
   cps_ok t 0 = true ->
-  past_eol_crlf t (sl r) (sc r) = false -> past_eol_crlf t (el r) (ec r) = false ->
   ref_off t (sl r) (sc r) = Some a -> ref_off t (el r) (ec r) = Some z -> a <= z ->
   apply_change t r x = firstn (N.to_nat a) t ++ x ++ skipn (N.to_nat z) t.
 Proof.
-  intros Hok Hp1 Hp2 Ha Hz Hle. unfold apply_change.
-  rewrite (off_agree t 0 _ _ a Hok (fun _ => eq_refl) Hp1 Ha).
-  rewrite (off_agree t 0 _ _ z Hok (fun _ => eq_refl) Hp2 Hz).
+  intros Hok Ha Hz Hle. unfold apply_change.
+  rewrite (off_agree t 0 _ _ a Hok (fun _ => eq_refl) Ha).
+  rewrite (off_agree t 0 _ _ z Hok (fun _ => eq_refl) Hz).
   apply ref_off_bound in Ha. apply ref_off_bound in Hz.
   assert (E1 : (z <? a) = false) by lia. rewrite E1.
   assert (E2 : (blen t <? a) = false) by lia. assert (E3 : (blen t <? z) = false) by lia.
@@ -188,11 +188,11 @@ Qed.
 
 Lemma change_agree t c :
   wf_text t = true -> wf_change t c = true ->
-  is_zero_insert t c = false -> is_crlf_past t c = false ->
+  is_zero_insert t c = false ->
   srv_apply t c = ref_apply t c.
 Proof.
-  intros Hwt Hwc Hz Hc. unfold wf_text in Hwt. apply andb_true_iff in Hwt as [Hok _].
-  unfold srv_apply, ref_apply, wire_range, wf_change, is_zero_insert, is_crlf_past in *.
+  intros Hwt Hwc Hz. unfold wf_text in Hwt. apply andb_true_iff in Hwt as [Hok _].
+  unfold srv_apply, ref_apply, wire_range, wf_change, is_zero_insert in *.
   destruct (ch_range c) as [r|].
   - apply andb_true_iff in Hwc as [_ Hwc]. apply andb_true_iff in Hwc as [_ Hwc].
     destruct (ref_off t (sl r) (sc r)) as [a|] eqn:Ha; [|discriminate].
@@ -203,21 +203,20 @@ Proof.
       assert (sl r = 0 /\ sc r = 0 /\ el r = 0 /\ ec r = 0) as (E1 & E2 & E3 & E4) by lia.
       rewrite E1, E2 in Ha. rewrite E3, E4 in Hz'. cbn in Ha, Hz'. inversion Ha; inversion Hz'; subst.
       cbn. rewrite app_nil_r. reflexivity.
-    + apply orb_false_iff in Hc as [Hc1 Hc2].
-      apply (apply_agree t r (ch_text c) a z Hok Hc1 Hc2 Ha Hz'). lia.
+    + apply (apply_agree t r (ch_text c) a z Hok Ha Hz'). lia.
   - reflexivity.
 Qed.
 
 Lemma changes_agree : forall chs t,
   wf_text t = true -> wf_changes t chs = true ->
-  any_change is_zero_insert t chs = false -> any_change is_crlf_past t chs = false ->
+  any_change is_zero_insert t chs = false ->
   fold_left srv_apply chs t = fold_left ref_apply chs t /\ wf_text (fold_left ref_apply chs t) = true.
 Proof.
-  induction chs as [|c chs IH]; intros t Hwt Hw Hz Hc; cbn [fold_left].
+  induction chs as [|c chs IH]; intros t Hwt Hw Hz; cbn [fold_left].
   - split; [reflexivity|exact Hwt].
   - cbn [wf_changes] in Hw. apply andb_true_iff in Hw as [Hw Hw3]. apply andb_true_iff in Hw as [Hw1 Hw2].
-    cbn [any_change] in Hz, Hc. apply orb_false_iff in Hz as [Hz1 Hz2]. apply orb_false_iff in Hc as [Hc1 Hc2].
-    rewrite (change_agree t c Hwt Hw1 Hz1 Hc1). apply IH; assumption.
+    cbn [any_change] in Hz. apply orb_false_iff in Hz as [Hz1 Hz2].
+    rewrite (change_agree t c Hwt Hw1 Hz1). apply IH; assumption.
 Qed.
 
 (* ---------- the store ---------- *)
@@ -247,37 +246,36 @@ Qed.
 
 Lemma step_agree d e :
   all_wf d -> wf_event d e = true ->
-  any_event is_zero_insert d [e] = false -> any_event is_crlf_past d [e] = false ->
+  any_event is_zero_insert d [e] = false ->
   srv_step d e = ref_step d e /\ all_wf (ref_step d e).
 Proof.
-  intros Hd Hw Hz Hc. destruct e as [u t|u chs|u]; cbn [srv_step ref_step wf_event any_event] in *.
+  intros Hd Hw Hz. destruct e as [u t|u chs|u]; cbn [srv_step ref_step wf_event any_event] in *.
   - split; [reflexivity|]. apply all_wf_store; assumption.
   - destruct (dlookup u d) as [t|] eqn:El; [|split; [reflexivity|exact Hd]].
-    rewrite orb_false_r in Hz, Hc.
-    destruct (changes_agree chs t (Hd u t El) Hw Hz Hc) as [E Hwf].
+    rewrite orb_false_r in Hz.
+    destruct (changes_agree chs t (Hd u t El) Hw Hz) as [E Hwf].
     rewrite E. split; [reflexivity|]. apply all_wf_store; assumption.
   - split; [reflexivity|]. apply all_wf_remove; exact Hd.
 Qed.
 
 Lemma run_agree : forall h d,
   all_wf d -> wf_from d h = true ->
-  any_event is_zero_insert d h = false -> any_event is_crlf_past d h = false ->
+  any_event is_zero_insert d h = false ->
   fold_left srv_step h d = fold_left ref_step h d.
 Proof.
-  induction h as [|e h IH]; intros d Hd Hw Hz Hc; cbn [fold_left]; [reflexivity|].
+  induction h as [|e h IH]; intros d Hd Hw Hz; cbn [fold_left]; [reflexivity|].
   cbn [wf_from] in Hw. apply andb_true_iff in Hw as [Hw1 Hw2].
-  cbn [any_event] in Hz, Hc. apply orb_false_iff in Hz as [Hz1 Hz2]. apply orb_false_iff in Hc as [Hc1 Hc2].
+  cbn [any_event] in Hz. apply orb_false_iff in Hz as [Hz1 Hz2].
   destruct (step_agree d e Hd Hw1) as [E Hd'].
   - cbn [any_event]. rewrite Hz1. reflexivity.
-  - cbn [any_event]. rewrite Hc1. reflexivity.
   - rewrite E. apply IH; assumption.
 Qed.
 
 Lemma partial h :
-  wf_history h = true -> has_zero_insert h = false -> has_crlf_past h = false ->
+  wf_history h = true -> has_zero_insert h = false ->
   srv_run h = ref_run h.
 Proof.
-  intros Hw Hz Hc. apply run_agree; try assumption. intros u t H. discriminate H.
+  intros Hw Hz. apply run_agree; try assumption. intros u t H. discriminate H.
 Qed.
 
 (* ---------- refutations of the full statement ---------- *)
@@ -295,10 +293,12 @@ Lemma refuted_zero_insert :
   wf_history witness_zero_insert = true /\ srv_run witness_zero_insert <> ref_run witness_zero_insert.
 Proof. split; [vm_compute; reflexivity|vm_compute; discriminate]. Qed.
 
-Lemma refuted_crlf :
+(* the CRLF history that used to fail (the insertion landed between CR and LF) *)
+Lemma crlf_past_eol_sample :
   wf_history witness_crlf = true /\ has_zero_insert witness_crlf = false /\
-  srv_run witness_crlf <> ref_run witness_crlf.
-Proof. repeat split; try (vm_compute; reflexivity). vm_compute; discriminate. Qed.
+  dlookup 0 (srv_run witness_crlf) = Some (bs "abX" ++ [CR; LF] ++ bs "cd") /\
+  srv_run witness_crlf = ref_run witness_crlf.
+Proof. repeat split; vm_compute; reflexivity. Qed.
 
 Lemma statement_refuted : ~ C01_statement.
 Proof. intro H. destruct refuted_zero_insert as [Hw Hne]. apply Hne. apply H. exact Hw. Qed.
@@ -306,12 +306,12 @@ Proof. intro H. destruct refuted_zero_insert as [Hw Hne]. apply Hne. apply H. ex
 (* the answers of a handler that reads nothing but the stored text are a function of that text:
    in the model every such answer is  f (dlookup u (srv_run h))  by construction; stated for the record *)
 Lemma fresh_doc_only (f : option (list N) -> list N) h u :
-  wf_history h = true -> has_zero_insert h = false -> has_crlf_past h = false ->
+  wf_history h = true -> has_zero_insert h = false ->
   f (dlookup u (srv_run h)) = f (dlookup u (ref_run h)).
 Proof. intros. rewrite partial; auto. Qed.
 
 (* non-vacuity: a history with non-ASCII text, CRLF, a multi-change notification, past-end
-   positions, close and re-open that satisfies all three hypotheses of [partial] *)
+   positions, close and re-open that satisfies the hypotheses of [partial] *)
 Definition sample_history : list event :=
   [ Open 0 (hx "61f09f9880c3a90d0a62630a");                 (* a😀é CRLF bc LF *)
     Change 0 [ mkChange (Some (mkRange 0 1 0 3)) (bs "Z");   (* replace the emoji *)
@@ -323,7 +323,6 @@ Definition sample_history : list event :=
 
 Example sample_meets_hypotheses :
   wf_history sample_history = true /\ has_zero_insert sample_history = false /\
-  has_crlf_past sample_history = false /\
   dlookup 0 (srv_run sample_history) = Some (bs "k") /\
   dlookup 1 (srv_run sample_history) = Some (bs "x").
 Proof. vm_compute. repeat split; reflexivity. Qed.
